@@ -31,6 +31,10 @@ def random_case(prop, rng, tier):
     return case
 
 
+def _on_slip(task):
+    return task
+
+
 def fields_of(t):
     return [t.id, t.name, t.resource, t.start, t.end, t.milestone, t.estimate, t.spent, t.min_start,
             sorted((k, repr(v)) for k, v in t.__dict__.items() if not k.startswith('_'))]
@@ -48,6 +52,10 @@ def execute(prop, case):
     if case['attrs']:
         w.title = 'plan'
         w.version = 3
+        w.on_slip = _on_slip                       # a callback, a class and a query result kept on the WBS are public attributes too
+        w.factory = dict
+        w.watch = w.tasks(lambda t: t.id % 2 == 0)
+        w.flag = 0
         for i, t in enumerate(u.tasks):
             if i % 2 == 0:
                 t.color = f'c{i}'
@@ -101,7 +109,7 @@ def execute(prop, case):
             rows.append([0, None, [], [], [], None])
             continue
         rp = getattr(o, '_Task__parent', None)
-        rows.append([o.id, None if rp is None else uid.get(id(rp), -1), [uid.get(id(x), -1) for x in o.children],
+        rows.append([int(o.id), None if rp is None else uid.get(id(rp), -1), [uid.get(id(x), -1) for x in o.children],
                      [uid.get(id(x), -1) for x in o.predecessors], [uid.get(id(x), -1) for x in o.successors],
                      None if o.wbs is None else (u.m + wbss.index(o.wbs) if o.wbs in u.wbs else n + len(sel))])
     rec['post'] = {'t': rows}
